@@ -38,6 +38,13 @@ def _split_body(body, new_structs):
         return 0
     bad = set()
     whole_defs = {l: 0 for l in cands}
+    parent = {l: l for l in cands}
+
+    def find(x):
+        while parent[x] != x:
+            parent[x] = parent[parent[x]]
+            x = parent[x]
+        return x
 
     def scan(o, ctx):
         """ctx: 'dest' for an assignment target, 'use' otherwise"""
@@ -67,6 +74,11 @@ def _split_body(body, new_structs):
             if st.get("s") == "assign":
                 rv = st["rv"]
                 is_agg = rv.get("rv") == "agg" and rv.get("ak") == "adt" and not st["pl"]["p"] and st["pl"]["l"] in cands and (rv.get("adt") or "") == _base(body["locals"][st["pl"]["l"]]["ty"])
+                if not st["pl"]["p"] and st["pl"]["l"] in cands and rv.get("rv") == "use" and rv["op"].get("k") in ("move", "copy") and not rv["op"]["pl"]["p"] and rv["op"]["pl"]["l"] in cands:
+                    # the object handed on whole to another local of the same type (`Self::new(..)` returning it,
+                    # `fn finish(self)` taking it): one object, several names
+                    parent[find(st["pl"]["l"])] = find(rv["op"]["pl"]["l"])
+                    continue
                 scan(st["pl"], "dest-agg" if is_agg else "dest")
                 scan(rv, "use")
             else:
@@ -80,17 +92,28 @@ def _split_body(body, new_structs):
             scan(t.get("dest"), "dest")
         else:
             scan({k: v for k, v in t.items() if k != "span"}, "use")
-    todo = [l for l in cands if l not in bad and whole_defs[l] >= 1]
+    classes = {}
+    for l in cands:
+        classes.setdefault(find(l), []).append(l)
+    todo = []
+    for r, members in classes.items():
+        if any(m in bad for m in members) or sum(whole_defs[m] for m in members) < 1:
+            continue
+        if len({_base(body["locals"][m]["ty"]) for m in members}) != 1:
+            continue
+        todo.append((r, members))
     if not todo:
         return 0
     newl = {}
-    for l in todo:
-        fields = cands[l]
-        newl[l] = {}
+    for r, members in todo:
+        fields = cands[r]
+        shared = {}
         for f in fields:
             body["locals"].append({"ty": f["ty"]})
-            newl[l][f["name"]] = len(body["locals"]) - 1
+            shared[f["name"]] = len(body["locals"]) - 1
             body["names"].append({"name": f"{f['name']}", "place": {"l": len(body["locals"]) - 1, "p": [], "ty": f["ty"]}})
+        for m in members:
+            newl[m] = shared
 
     def rewrite(o):
         if isinstance(o, dict):
@@ -108,6 +131,8 @@ def _split_body(body, new_structs):
     for blk in body["blocks"]:
         out = []
         for st in blk["stmts"]:
+            if st.get("s") == "assign" and not st["pl"]["p"] and st["pl"]["l"] in newl and st["rv"].get("rv") == "use" and st["rv"]["op"].get("k") in ("move", "copy") and not st["rv"]["op"]["pl"]["p"] and st["rv"]["op"]["pl"]["l"] in newl:
+                continue      # one name of the object assigned to another: nothing moves any more
             if st.get("s") == "assign" and not st["pl"]["p"] and st["pl"]["l"] in newl and st["rv"].get("rv") == "agg":
                 rv = st["rv"]
                 for fname, op in zip(rv.get("fields") or [], rv.get("ops") or []):
